@@ -375,7 +375,7 @@ def generate(rng, idx, tier, variant):
     W = {
         'container': {'add_variable': 3, 'setattr': 5, 'setitem': 3, 'setitem_label': 2, 'setitem_slice': 2, 'set_pos': 2, 'replace_values': 2, 'set_values': 2, 'add_attribute': 1, 'set_attr_plain': 2, 'set_strict': 1, 'get': 2, 'spawn': 0.5, 'reindex': 0.3, 'eval_nested': 0.8},
         'labels': {'add_variable': 1, 'setattr': 1, 'setitem_label': 6, 'setitem_slice': 6, 'set_pos': 2, 'get': 4, 'setitem': 1, 'reindex': 1.5, 'reuse_key': 3, 'spawn': 0.5, 'add_attribute': 0.6},
-        'copies': {'mutate_any': 5, 'add_variable': 2, 'setattr': 3, 'setitem_label': 1, 'setitem_slice': 1, 'set_pos': 3, 'replace_values': 1, 'set_values': 1, 'add_attribute': 1, 'set_attr_plain': 2, 'set_strict': 1, 'spawn': 5, 'mutate_list': 5, 'solve': 2, 'sub_poke': 2, 'reindex': 0.5, 'eval_name': 2.5, 'eval_nested': 1.5},
+        'copies': {'mutate_any': 5, 'assign_from': 1.5, 'add_variable': 2, 'setattr': 3, 'setitem_label': 1, 'setitem_slice': 1, 'set_pos': 3, 'replace_values': 1, 'set_values': 1, 'add_attribute': 1, 'set_attr_plain': 2, 'set_strict': 1, 'spawn': 5, 'mutate_list': 5, 'solve': 2, 'sub_poke': 2, 'reindex': 0.5, 'eval_name': 2.5, 'eval_nested': 1.5},
         'reindex': {'mutate_any': 2, 'mutate_list': 1.5, 'add_attribute': 2, 'add_variable': 3, 'setattr': 3, 'set_pos': 2, 'setitem_slice': 1, 'get': 1, 'reuse_key': 1, 'reindex': 6, 'solve': 2, 'set_strict': 1, 'spawn': 0.5, 'set_attr_plain': 1.5},
     }[variant]
     kinds, weights = zip(*sorted(W.items()))
@@ -403,6 +403,11 @@ def generate(rng, idx, tier, variant):
                 if good:
                     names.append((nm, dt))
                     g['names'][p] = names
+        elif kind == 'assign_from':
+            # a whole series read from one object and assigned, as it is, to another (`dup.G = model.G`): the value is copied
+            # in - the two objects do not end up holding one array
+            if names and g['np'] >= 2:
+                ops.append({'op': 'assign_from', 'obj': p, 'other': rng.randrange(g['np']), 'name': pick()[0], 'via': rng.choice(['attr', 'item', 'replace_values']), 'read': rng.choice(['attr', 'item'])})
         elif kind in ('setattr', 'setitem'):
             if rng.random() < 0.1 or not names:
                 ops.append({'op': kind, 'obj': p, 'name': '?unknown', 'value': _vspec(rng, g)})
@@ -1151,6 +1156,27 @@ def execute(schedule, ctx):
                     party.dtypes[nm] = d['_' + nm].dtype
                 invariants(party, ctx, 'add_variable/' + _vclass(op['value']))
                 party.sync()
+
+        elif kind == 'assign_from':
+            nm = op['name']
+            j_ = op['other'] % len(parties)
+            src_ = parties[j_]
+            if j_ == i or nm not in party.ref or nm not in src_.ref or nm in RESERVED or len(src_.labels) != n or src_.ref[nm].dtype.kind == 'O' or party.ref[nm].dtype.kind == 'O':
+                outcome = 'skipped'
+            else:
+                v = getattr(src_.obj, nm) if op['read'] == 'attr' else src_.obj[nm]
+                cls_, new = RC.expect_whole(party.ref[nm], v, n)
+                if op['via'] == 'attr':
+                    fn = lambda: setattr(x, nm, v)  # noqa: E731
+                elif op['via'] == 'item':
+                    fn = lambda: x.__setitem__(nm, v)  # noqa: E731
+                else:
+                    fn = lambda: x.replace_values(**{nm: v})  # noqa: E731
+                ctx.probe('series-of-one-object-assigned-to-another:' + ('same-dtype' if v.dtype == party.ref[nm].dtype else 'other-dtype'))
+                outcome = settle(cls_, new, nm, 'C09', 'assign-from-another-object', fn)
+                if outcome in ('ok', 'may-ok'):
+                    shared_ = np.shares_memory(d['_' + nm], src_.obj.__dict__['_' + nm]) if isinstance(d.get('_' + nm), np.ndarray) else False
+                    ctx.check('C11', 'assign-from-another-object/the-two-objects-hold-one-array', not shared_, {'name': nm, 'via': op['via']})
 
         elif kind in ('setattr', 'setitem'):
             nm = op['name']
